@@ -29,7 +29,7 @@ ANCHORS = [
 
 AUTOMUT_TRIAGE = [
     (r"__getattr__$", r"drop keyword valid=", "a component's validity is C08's subject (C08.D1 reports it)"),
-    (r"Line\.__init__$", r"line \d+: constant", "Line.dim (taken from the first value) is not an observable of the statement; the columns, "
+    (r"Line\.__init__$", r"values\[0\]|self\.dim = ", "Line.dim (taken from the first value) is not an observable of the statement; the columns, "
      "points, values and distances are"),
 ]
 
